@@ -28,7 +28,7 @@ Holds(c, e0) ==
   CASE c = "C10_Valid"     -> e.shape = "units" \/ (OkA(e) /\ (e.onlyA \/ (OkR(e) /\ OkH(e))))            \* a valid request is carried out, in both modes
     [] c = "C10_End"       -> OkA(e) => C10_End(e, VA, 1)
     [] c = "C10_EndRel"    -> OkR(e) => C10_End(e, VR, (Len(VR) + 3) \div 2)
-    [] c = "C10_Start"     -> (OkA(e) /\ e.shape # "polyline") => C10_Start(e, VA)
+    [] c = "C10_Start"     -> (OkA(e) /\ e.shape \notin {"polyline", "parametric"}) => C10_Start(e, VA)   \* a user curve may start elsewhere
     [] c = "C10_Radius"    -> OkA(e) => C10_Radius(e, VA)
     [] c = "C10_Sweep"     -> OkA(e) => C10_Sweep(e, VA)
     [] c = "C10_Direction" -> OkA(e) => C10_Direction(e, VA)
